@@ -35,6 +35,7 @@ func init() {
 		c19Order(x)
 		c19ErrorHandler(x)
 		c19ServeHTTP(x)
+		c19Writer(x)
 		return nil
 	})
 }
@@ -1510,4 +1511,141 @@ func c19ServeHTTP(x *X) {
 		}
 	}
 	x.defBool("serveHTTPRolesFound", trName != "" && hName != "" && targetFound)
+}
+
+// c19Writer: what ServeHTTP hands the handler as its http.ResponseWriter, and what that writer's WriteHeader
+// does with the calls it gets. Roles: the writer is the first argument of the `<h>.ServeHTTP(_, req)` call; if
+// it is a local defined as `&T{f: w}` (T a type of package proxy, w ServeHTTP's first parameter), T's
+// WriteHeader is looked at: "every-call-passed-through" when a call `<recv>.f.WriteHeader(<its parameter>)` is
+// a top-level statement of the method and nothing before it can leave the method or skip it (no if / switch /
+// for / return / defer / go / panic before the call, the parameter not reassigned before it).
+func c19Writer(x *X) {
+	verdict := "not-found"
+	defer func() { x.defStr("serveHTTPWriterWriteHeader", verdict) }()
+	sh := x.funcDecl("proxy", "HTTPProxy", "ServeHTTP")
+	if sh == nil || sh.Body == nil {
+		return
+	}
+	recv, params, _ := x.LocalNames(sh)
+	if len(params) != 2 {
+		return
+	}
+	wName, reqName := params[0], params[1]
+	var warg ast.Expr
+	ast.Inspect(sh.Body, func(n ast.Node) bool {
+		if c, ok := n.(*ast.CallExpr); ok {
+			if sel, ok := c.Fun.(*ast.SelectorExpr); ok && sel.Sel.Name == "ServeHTTP" && len(c.Args) == 2 {
+				if id, ok := sel.X.(*ast.Ident); ok && id.Name != recv {
+					if a, ok := c.Args[1].(*ast.Ident); ok && a.Name == reqName {
+						warg = c.Args[0]
+					}
+				}
+			}
+		}
+		return true
+	})
+	if warg == nil {
+		return
+	}
+	id, ok := warg.(*ast.Ident)
+	if !ok {
+		verdict = "writer-is-an-expression: " + x.src(warg)
+		return
+	}
+	if id.Name == wName {
+		verdict = "every-call-passed-through" // the server's own writer
+		return
+	}
+	// the defining expression of the local
+	var def ast.Expr
+	ndefs := 0
+	ast.Inspect(sh.Body, func(n ast.Node) bool {
+		if as, ok := n.(*ast.AssignStmt); ok {
+			for i, l := range as.Lhs {
+				if li, ok := l.(*ast.Ident); ok && li.Name == id.Name && i < len(as.Rhs) {
+					def = as.Rhs[i]
+					ndefs++
+				}
+			}
+		}
+		return true
+	})
+	if def == nil || ndefs != 1 {
+		verdict = "writer-local-not-defined-once"
+		return
+	}
+	lit, ok := c19StripAddr(def).(*ast.CompositeLit)
+	if !ok {
+		verdict = "writer-not-a-literal: " + x.src(def)
+		return
+	}
+	tid, ok := lit.Type.(*ast.Ident)
+	if !ok {
+		verdict = "writer-type-not-local: " + x.src(lit.Type)
+		return
+	}
+	field := ""
+	for _, el := range lit.Elts {
+		if kv, ok := el.(*ast.KeyValueExpr); ok {
+			if v, ok := kv.Value.(*ast.Ident); ok && v.Name == wName {
+				field = x.src(kv.Key)
+			}
+		}
+	}
+	if field == "" {
+		verdict = "writer-does-not-wrap-w"
+		return
+	}
+	var m *ast.FuncDecl
+	for _, f := range x.files("proxy") {
+		for _, d := range f.Decls {
+			fd, ok := d.(*ast.FuncDecl)
+			if !ok || fd.Name.Name != "WriteHeader" || fd.Recv == nil || len(fd.Recv.List) != 1 {
+				continue
+			}
+			t := fd.Recv.List[0].Type
+			if st, ok := t.(*ast.StarExpr); ok {
+				t = st.X
+			}
+			if ti, ok := t.(*ast.Ident); ok && ti.Name == tid.Name {
+				m = fd
+			}
+		}
+	}
+	if m == nil || m.Body == nil {
+		verdict = "writer-has-no-WriteHeader" // would be promoted from an embedded writer: not the shape of the source
+		return
+	}
+	mrecv, mparams, _ := x.LocalNames(m)
+	if mrecv == "" || len(mparams) != 1 {
+		verdict = "WriteHeader-unexpected-signature"
+		return
+	}
+	verdict = "no-pass-through-call"
+	for _, st := range m.Body.List {
+		switch v := st.(type) {
+		case *ast.ExprStmt:
+			if c, ok := v.X.(*ast.CallExpr); ok {
+				if x.src(c.Fun) == mrecv+"."+field+".WriteHeader" && len(c.Args) == 1 && x.src(c.Args[0]) == mparams[0] {
+					verdict = "every-call-passed-through"
+					return
+				}
+				if fn := x.src(c.Fun); fn == "panic" || strings.HasSuffix(fn, ".Fatal") || strings.HasSuffix(fn, ".Exit") {
+					verdict = "may-leave-before-pass-through: " + fn
+					return
+				}
+			}
+		case *ast.AssignStmt:
+			for _, l := range v.Lhs {
+				if x.src(l) == mparams[0] {
+					verdict = "status-rewritten-before-pass-through"
+					return
+				}
+			}
+		case *ast.DeclStmt, *ast.IncDecStmt, *ast.EmptyStmt:
+		default:
+			verdict = "conditional-or-early-exit-before-pass-through"
+			return
+		}
+	}
 }
